@@ -150,9 +150,46 @@ Proof. exact sched_ok_iff_spec. Qed.
 Theorem fetch_history_agreement_sound : forall H self_peer maxp range keys steps,
   agree_fetch_sched H self_peer maxp range keys steps = true ->
   maxp = Consts.fetcher_max_parallel /\
-  forall st pre_p pre_o picked post_p post_o, In (st, (pre_p, pre_o), picked, (post_p, post_o)) steps ->
-    agree_fetch_step (key_dist H self_peer) maxp range st pre_p pre_o picked post_p post_o = true.
+  forall st pre_p pre_o pre_far picked post_p post_o post_far,
+    In (st, (pre_p, pre_o, pre_far), picked, (post_p, post_o, post_far)) steps ->
+    agree_fetch_step (key_dist H self_peer) maxp range st pre_p pre_o pre_far picked post_p post_o post_far = true.
 Proof. exact agree_fetch_sched_sound. Qed.
+
+(* the fullness bound (farthest_acceptable_distance), exact integer comparison.
+   One notification with farthest key `key`: the bound becomes min(old bound, distance of key) -- it only
+   ever shrinks -- and what stays queued / in flight is exactly what is within it. *)
+Theorem farthest_on_full_exact : forall H self_peer far key pending ongoing,
+  let d := fun e : entry => distance H (from_peer self_peer) (from_record_key (entry_key e)) in
+  let dkey := distance H (from_peer self_peer) (from_record_key key) in
+  (match far with Some f => (forall e, In e pending -> d e <= f) /\ (forall e, In e ongoing -> d e <= f) | None => True end) ->
+  let b := match far with Some o => N.min o dkey | None => dkey end in
+  let '(pending', ongoing', far') := set_farthest_on_full (key_dist H self_peer) far (Some key) pending ongoing in
+  far' = Some b /\
+  (forall e, In e pending' <-> In e pending /\ d e <= b) /\
+  (forall e, In e ongoing' <-> In e ongoing /\ d e <= b).
+Proof.
+  intros H self_peer far key pending ongoing d dkey Hinv.
+  apply (full_purge_exact (key_dist H self_peer) far key pending ongoing); destruct far as [f|]; cbn; try exact I; tauto.
+Qed.
+
+(* Every history of adverts, completions, scheduling calls and fullness notifications, from the empty
+   fetcher: the bound is the MINIMUM of the distances of the farthest keys notified so far, and nothing
+   queued or in flight (hence nothing accepted or handed out) is farther than it. *)
+Theorem fullness_bound_invariant : forall H self_peer maxp range steps,
+  let d := fun e : entry => distance H (from_peer self_peer) (from_record_key (entry_key e)) in
+  let '(pending, ongoing, far) := fetch_run (key_dist H self_peer) maxp range steps in
+  far = notified_min (key_dist H self_peer) steps /\
+  match far with
+  | Some f => (forall e, In e pending -> d e <= f) /\ (forall e, In e ongoing -> d e <= f)
+  | None => True
+  end.
+Proof.
+  intros H self_peer maxp range steps d.
+  pose proof (fetch_run_bound (key_dist H self_peer) maxp range steps) as [Hf [Hp Ho]].
+  destruct (fetch_run (key_dist H self_peer) maxp range steps) as [[pending ongoing] far].
+  unfold state_far in Hf. cbn [fst snd] in *. split; [exact Hf|].
+  destruct far as [f|]; [split; [exact Hp|exact Ho]|exact I].
+Qed.
 
 Theorem store_distance_index_exact : forall H, (forall x, H x < 2 ^ 256) -> forall self_peer keys,
   NoDup (records_by_distance H self_peer keys) /\
